@@ -16,6 +16,12 @@ pub(super) mod constants {
     /// over into the next chunk and pre-fills the 64 byte rolling hash window from the end of the
     /// first `chunk_min_size` bytes, so smaller values make it panic or emit oversized chunks.
     pub(super) const MIN_CHUNK_MIN_SIZE: usize = BUF_SIZE;
+    /// Smallest supported degree of the chunker polynomial: the rolling hash shifts by `degree - 8`.
+    pub(super) const MIN_POLY_DEGREE: i32 = 8;
+    /// Largest supported degree of the chunker polynomial: the rolling hash shifts the fingerprint
+    /// by 8 bits within a `u64`, so for larger degrees it would no longer be the remainder modulo
+    /// the polynomial.
+    pub(super) const MAX_POLY_DEGREE: i32 = 56;
 }
 
 pub(crate) fn check_rabin_params(
@@ -49,6 +55,28 @@ pub(crate) fn check_rabin_params(
         )
         .attach_context("min", constants::MIN_CHUNK_MIN_SIZE.to_string())
         .attach_context("chunk_min_size", chunk_min_size.to_string()));
+    }
+    Ok(())
+}
+
+/// Checks the polynomial of the rabin chunker.
+///
+/// # Errors
+///
+/// * If the degree of the polynomial is not between 8 and 56: a zero polynomial makes the table
+///   computation loop forever, a degree below 8 makes the rolling hash shift by a negative amount
+///   and for a degree above 56 the 64 bit rolling hash is no longer the Rabin fingerprint.
+pub(crate) fn check_rabin_polynomial(poly: Polynom64) -> RusticResult<()> {
+    let degree = poly.degree();
+    if degree < constants::MIN_POLY_DEGREE || degree > constants::MAX_POLY_DEGREE {
+        return Err(RusticError::new(
+            ErrorKind::Unsupported,
+            "The chunker polynomial `{polynomial}` has degree {degree}; the rabin chunker needs a degree between {min} and {max}.",
+        )
+        .attach_context("polynomial", format!("{poly:x}"))
+        .attach_context("degree", degree.to_string())
+        .attach_context("min", constants::MIN_POLY_DEGREE.to_string())
+        .attach_context("max", constants::MAX_POLY_DEGREE.to_string()));
     }
     Ok(())
 }
